@@ -40,6 +40,8 @@ pub enum ModelParseError {
 
     #[error("USE_GV is true, but positions for GV is not set")]
     UseGvError,
+    #[error("The PDF length given by the header does not fit in usize")]
+    PdfLengthOverflow,
 
     #[error("Failed to parse question: {0}")]
     QuestionParseError(#[from] jlabel_question::ParseError),
@@ -103,6 +105,20 @@ where
     .parse(input)
 }
 
+/// Number of values in one PDF (mean and variance for every window of every dimension, plus the MSD weight),
+/// or an error if the numbers taken from the header do not fit.
+fn pdf_length(
+    vector_length: usize,
+    num_windows: usize,
+    is_msd: bool,
+) -> Result<usize, ModelParseError> {
+    vector_length
+        .checked_mul(num_windows)
+        .and_then(|n| n.checked_mul(2))
+        .and_then(|n| n.checked_add(is_msd as usize))
+        .ok_or(ModelParseError::PdfLengthOverflow)
+}
+
 fn parse_data_section(
     input: &[u8],
     global: &Global,
@@ -115,7 +131,7 @@ fn parse_data_section(
         input,
         position.duration_tree,
         position.duration_pdf,
-        global.num_states * 2,
+        pdf_length(global.num_states, 1, false)?,
     )?;
 
     let stream_models: Vec<StreamModels> = global
@@ -135,8 +151,11 @@ fn parse_data_section(
                 input,
                 pos.stream_tree,
                 pos.stream_pdf,
-                stream_data.vector_length * stream_data.num_windows * 2
-                    + (stream_data.is_msd as usize),
+                pdf_length(
+                    stream_data.vector_length,
+                    stream_data.num_windows,
+                    stream_data.is_msd,
+                )?,
             )?;
 
             let gv_model = if stream_data.use_gv {
@@ -144,7 +163,7 @@ fn parse_data_section(
                     input,
                     pos.gv_tree.ok_or(ModelParseError::UseGvError)?,
                     pos.gv_pdf.ok_or(ModelParseError::UseGvError)?,
-                    stream_data.vector_length * 2,
+                    pdf_length(stream_data.vector_length, 1, false)?,
                 )?;
                 Some(gv_model)
             } else {
